@@ -489,6 +489,52 @@ instance (eqs : List (Equation β)) (cols : List Int) : Decidable (EquationsDate
 
 end
 
+/-! ## Extent of the data array: pre-sample and post-sample columns (`Sequential.max_lag` / `max_lead`, Dataslate) -/
+
+section
+variable {β : Type}
+
+/-- `Sequential.max_lag` = `min` over the equations of the smallest shift in their incidence (the LHS token at shift 0 is always
+there, so the result is ≤ 0) -/
+def minShift (eqs : List (Equation β)) : Int :=
+  (eqs.flatMap Equation.depTokens).foldl (fun m tok => min m tok.2) 0
+
+/-- `Sequential.max_lead` -/
+def maxShift (eqs : List (Equation β)) : Int :=
+  (eqs.flatMap Equation.depTokens).foldl (fun m tok => max m tok.2) 0
+
+/-- number of columns the Dataslate puts before the first simulated one -/
+def nPreOf (eqs : List (Equation β)) : Nat := (- minShift eqs).toNat
+
+/-- number of columns after the last simulated one -/
+def nPostOf (eqs : List (Equation β)) : Nat := (maxShift eqs).toNat
+
+end
+
+/-! ## Assembly of the returned databox: `out_db = target_db | out_db` (Python dict union on a deep copy of the target) -/
+
+section
+variable {κ ν : Type} [DecidableEq κ]
+
+/-- a Python `dict`: association list in insertion order -/
+abbrev Dict (κ ν : Type) := List (κ × ν)
+
+/-- `d[k] = v`: an existing key keeps its position, a new key goes to the end -/
+def Dict.set1 (d : Dict κ ν) (k : κ) (v : ν) : Dict κ ν :=
+  match d with
+  | [] => [(k, v)]
+  | p :: rest => if p.1 = k then (k, v) :: rest else p :: Dict.set1 rest k v
+
+/-- `d.update(other)` -/
+def Dict.update (d other : Dict κ ν) : Dict κ ν :=
+  other.foldl (fun acc p => Dict.set1 acc p.1 p.2) d
+
+/-- `target_db | out_db`: a copy of the target updated with the fresh results; the target itself is not touched (the
+function is pure) -/
+def mergeOutput (target out : Dict κ ν) : Dict κ ν := Dict.update target out
+
+end
+
 /-! ## Executable carriers -/
 
 instance : Carrier Rat where
